@@ -190,19 +190,32 @@ func ParseResultField(packet *Packet, mariaDBExtendedTypeInfo bool) (*ColumnDesc
 	//       int<1> data type: 0x00:type, 0x01: format
 	//       string<lenenc> value
 	if mariaDBExtendedTypeInfo {
+		if pos >= len(packet.data) {
+			return nil, base.ErrMalformPacket
+		}
 		if packet.data[pos] == 0 {
 			// skip length byte
 			pos++
 		} else {
-			num, _, _, err := base.LengthEncodedInt(packet.data[pos:])
+			num, _, n, err := base.LengthEncodedInt(packet.data[pos:])
 			if err != nil {
 				return nil, err
 			}
-			// currently we dont need to take a look on extended info, so just grab it as is
-			offset := int(num + 1)
+			// the extended info must lie inside the packet (compare as uint64: num comes from the wire)
+			if num > uint64(len(packet.data)-pos-n) {
+				return nil, base.ErrMalformPacket
+			}
+			// currently we dont need to take a look on extended info, so just grab it as is (with its length prefix)
+			offset := n + int(num)
 			field.ExtendedTypeInfo = packet.data[pos : pos+offset]
 			pos += offset
 		}
+	}
+
+	// the fixed-length block must lie inside the packet:
+	// 0x0C (1) + charset (2) + column length (4) + type (1) + flags (2) + decimals (1) + filler (2)
+	if len(packet.data)-pos < 13 {
+		return nil, base.ErrMalformPacket
 	}
 
 	//skip 0x0C constant field
@@ -246,7 +259,8 @@ func ParseResultField(packet *Packet, mariaDBExtendedTypeInfo bool) (*ColumnDesc
 		}
 		pos += n
 
-		if pos+int(field.DefaultValueLength) > len(packet.data) {
+		// compare as uint64: the length comes from the wire and may not fit into int
+		if field.DefaultValueLength > uint64(len(packet.data)-pos) {
 			log.WithField(logging.FieldKeyEventCode, logging.EventCodeErrorProtocolProcessing).Errorln("Incorrect position, malformed packet")
 			err = base.ErrMalformPacket
 			return nil, err
